@@ -406,3 +406,139 @@ Example two_requests_one_timeout :
             result_of s 0 = Some (Some 40) /\ result_of s 1 = Some (Some 41) /\ result_of s 2 = Some None /\
             dead s = [(12, 42); (10, 43)] /\ reg s 10 = None /\ reg s 11 = None /\ reg s 12 = None.
 Proof. eexists. split; [by vm_compute|]. by vm_compute. Qed.
+
+(** * the liveness half of "bounded by the timeout", in logical time
+
+    The transition system has no fairness: any enabled step may be postponed.
+    What the code guarantees is urgency of Result()'s own steps: the runtime
+    timer wakes the select when the deadline is reached, and the deferred
+    Remove/return follow the decision without waiting for anything.  A run is
+    [urgent] when logical time does not advance past a moment at which some
+    Result() has a step of its own to take: no Tick while a parked Result() has
+    reached its deadline, nor while a decided Result() has not returned. *)
+Definition tick_allowed (s : rst) : Prop :=
+  forall r, match phase s r with
+            | Waiting d => clock s < d
+            | Decided _ => False
+            | _ => True
+            end.
+
+Inductive ureach (c : cfg) : rst -> Prop :=
+| ureach_init : ureach c rinit
+| ureach_step s l s' : ureach c s -> rstep c s l = Some s' -> (l = LTick -> tick_allowed s) -> ureach c s'.
+
+Lemma ureach_rreach c s : ureach c s -> rreach c rinit s.
+Proof. induction 1; [apply rreach_refl | by eapply rreach_step]. Qed.
+
+(* urgency never blocks time for ever: whenever Tick is not allowed, a step of
+   some Result() is enabled (the timer fires, or the decided call returns) *)
+Lemma urgent_step_enabled c s r :
+  (exists d, phase s r = Waiting d /\ d <= clock s) \/ (exists res, phase s r = Decided res) ->
+  exists l s', (l = LTimeout r \/ l = LReturn r) /\ rstep c s l = Some s'.
+Proof.
+  intros [(d & Hp & Hd)|(res & Hp)].
+  - exists (LTimeout r). eexists. split; [by left|]. simpl. rewrite Hp.
+    destruct (Nat.leb_spec d (clock s)); [done|lia].
+  - exists (LReturn r). eexists. split; [by right|]. simpl. by rewrite Hp.
+Qed.
+
+(* a call of Result() that has begun and not yet returned has not outlived its
+   timeout *)
+Definition in_result (p : rphase) : bool := match p with Waiting _ | Decided _ => true | _ => false end.
+
+Lemma urgent_inv c s :
+  ureach c s -> forall r, in_result (phase s r) = true ->
+  exists t0, began s r = Some t0 /\ t0 <= clock s <= t0 + timeout c /\
+             (forall d, phase s r = Waiting d -> d = t0 + timeout c).
+Proof.
+  induction 1 as [|s l s' U IH Hs Ht]; [done|]. intros r Hin.
+  destruct l as [r1|r1 v|k|r1| |r1|r1]; simpl in Hs.
+  - destruct (phase s r1) eqn:Hp; try done.
+    destruct (reg s (ids c r1)); injection Hs as <-; simpl in *;
+      (destruct (Nat.eqb_spec r r1) as [->|?]; [by rewrite rupd_eq in Hin|rewrite rupd_ne in * by done; by apply IH]).
+  - destruct (is_requested (phase s r1)); [|done]. destruct (reg s (ids c r1)); injection Hs as <-; by apply IH.
+  - destruct (pend s !! k) as [[[r' v] r0]|]; [|done].
+    assert (Hsame : in_result (phase s r) = true ->
+              exists t0, began s r = Some t0 /\ t0 <= clock s <= t0 + timeout c /\
+                         (forall d, phase s r = Waiting d -> d = t0 + timeout c)) by apply IH.
+    destruct (phase s r') eqn:Hp.
+    1,2,4,5: destruct (buf s r'); [destruct (nonblock c); [|done]|]; injection Hs as <-; by apply IH.
+    injection Hs as <-. simpl in *. destruct (Nat.eqb_spec r r') as [->|?].
+    + rewrite rupd_eq. destruct (IH r') as (t0 & ? & ? & ?); [by rewrite Hp|]. exists t0. split_and!; try done; lia.
+    + rewrite rupd_ne in * by done. by apply IH.
+  - destruct (phase s r1) eqn:Hp; try done.
+    destruct (buf s r1); injection Hs as <-; simpl in *;
+      (destruct (Nat.eqb_spec r r1) as [->|?];
+       [rewrite !rupd_eq; exists (clock s); split_and!; try done; try lia; intros d [= <-]; done
+       |rewrite !rupd_ne in * by done; by apply IH]).
+  - injection Hs as <-. simpl in *. destruct (IH r Hin) as (t0 & Hb & [H1 H2] & Hd). exists t0. split_and!; try done; [lia|].
+    specialize (Ht eq_refl r). destruct (phase s r) eqn:Hp; try done.
+    specialize (Hd _ eq_refl). lia.
+  - destruct (phase s r1) eqn:Hp; try done. destruct (deadline <=? clock s); [|done]. injection Hs as <-. simpl in *.
+    destruct (Nat.eqb_spec r r1) as [->|?].
+    + rewrite rupd_eq. destruct (IH r1) as (t0 & ? & ? & ?); [by rewrite Hp|]. exists t0. split_and!; try done; lia.
+    + rewrite rupd_ne in * by done. by apply IH.
+  - destruct (phase s r1) eqn:Hp; try done. injection Hs as <-. simpl in *.
+    destruct (Nat.eqb_spec r r1) as [->|?]; [by rewrite rupd_eq in Hin|]. rewrite rupd_ne in * by done. by apply IH.
+Qed.
+
+(* began is set by the call of Result() and by nothing else *)
+Lemma began_unset c s r :
+  rreach c rinit s -> phase s r = NotRequested \/ phase s r = Requested -> began s r = None.
+Proof.
+  induction 1 as [|s l s' R IH Hs]; [done|]. intros Hp.
+  destruct l as [r1|r1 v|k|r1| |r1|r1]; simpl in Hs.
+  - destruct (phase s r1) eqn:Hp1; try done.
+    destruct (reg s (ids c r1)); injection Hs as <-; simpl in *;
+      (destruct (Nat.eqb_spec r r1) as [->|?]; [apply IH; by left|rewrite rupd_ne in Hp by done; by apply IH]).
+  - destruct (is_requested (phase s r1)); [|done]. destruct (reg s (ids c r1)); injection Hs as <-; by apply IH.
+  - destruct (pend s !! k) as [[[r' v] r0]|]; [|done]. destruct (phase s r') eqn:Hp1.
+    1,2,4,5: destruct (buf s r'); [destruct (nonblock c); [|done]|]; injection Hs as <-; by apply IH.
+    injection Hs as <-. simpl in *. destruct (Nat.eqb_spec r r') as [->|?]; [rewrite rupd_eq in Hp; by destruct Hp|].
+    rewrite rupd_ne in Hp by done. by apply IH.
+  - destruct (phase s r1) eqn:Hp1; try done.
+    destruct (buf s r1); injection Hs as <-; simpl in *;
+      (destruct (Nat.eqb_spec r r1) as [->|?]; [rewrite rupd_eq in Hp; by destruct Hp|rewrite !rupd_ne in * by done; by apply IH]).
+  - injection Hs as <-. by apply IH.
+  - destruct (phase s r1) eqn:Hp1; try done. destruct (deadline <=? clock s); [|done]. injection Hs as <-. simpl in *.
+    destruct (Nat.eqb_spec r r1) as [->|?]; [rewrite rupd_eq in Hp; by destruct Hp|]. rewrite rupd_ne in Hp by done. by apply IH.
+  - destruct (phase s r1) eqn:Hp1; try done. injection Hs as <-. simpl in *.
+    destruct (Nat.eqb_spec r r1) as [->|?]; [rewrite rupd_eq in Hp; by destruct Hp|]. rewrite rupd_ne in Hp by done. by apply IH.
+Qed.
+
+(* Result() returns no later than the logical deadline: in every urgent run,
+   at every moment, a call of Result() that began at t0 and has not returned
+   yet sees a clock of at most t0 + timeout (so the step by which it returns is
+   taken at such a moment); a parked call has not passed its deadline *)
+Theorem result_waits_at_most_timeout c s r t0 :
+  ureach c s -> began s r = Some t0 ->
+  (forall res, phase s r <> Returned res) ->
+  t0 <= clock s <= t0 + timeout c /\ (forall d, phase s r = Waiting d -> d = t0 + timeout c /\ clock s <= d).
+Proof.
+  intros U Hb Hnr.
+  assert (Hin : in_result (phase s r) = true).
+  { destruct (phase s r) eqn:Hp; try done.
+    - rewrite (began_unset c s r (ureach_rreach _ _ U)) in Hb; [done|by left].
+    - rewrite (began_unset c s r (ureach_rreach _ _ U)) in Hb; [done|by right].
+    - by destruct (Hnr res). }
+  destruct (urgent_inv c s U r Hin) as (t1 & Hb' & Hc & Hd). assert (t1 = t0) by congruence. subst t1.
+  split; [done|]. intros d Hp. specialize (Hd d Hp). lia.
+Qed.
+
+(* the returning step of an urgent run happens at a clock within the timeout *)
+Corollary return_step_within_timeout c s r s' t0 :
+  ureach c s -> rstep c s (LReturn r) = Some s' -> began s r = Some t0 ->
+  clock s' = clock s /\ t0 <= clock s <= t0 + timeout c.
+Proof.
+  intros U Hs Hb. pose proof Hs as Hs'. simpl in Hs. destruct (phase s r) eqn:Hp; try done. injection Hs as <-. simpl.
+  split; [done|]. apply (result_waits_at_most_timeout c s r t0 U Hb). intros res'. by rewrite Hp.
+Qed.
+
+(* non-vacuity: an urgent run in which one Result() times out exactly at its
+   deadline (clock 3 + 2) and another returns a value at once *)
+Example urgent_run_example :
+  let c := {| ids := fun r => r; timeout := 2; nonblock := true |} in
+  exists s, rrun c rinit [LRequest 0; LRequest 1; LTick; LTick; LTick; LBegin 0; LLookup 1 9; LPut 0; LBegin 1; LReturn 1;
+                         LTick; LTick; LTimeout 0; LReturn 0; LTick] = Some s /\
+            result_of s 0 = Some None /\ result_of s 1 = Some (Some 9) /\ began s 0 = Some 3 /\ clock s = 6.
+Proof. eexists. split; [by vm_compute|]. by vm_compute. Qed.
